@@ -31,13 +31,14 @@ def check_cfg(ctx, fx, cfg):
     # R13.6 the stream the loop polls is the user's stream itself: every caller of the stream-loop constructor hands over
     # its own parameter unmodified (a wrapping adapter sits between the items and the loop and can stall or drop them)
     found = loops.find_loops(fx)
-    makers = {f["parent"] for f, k in found if k == "stream"}
+    makers = graph.forwarding_closure(fx, {f["parent"]: 2 for f, k in found if k == "stream"}, roots, lambda g_: ctx.body(fx, g_))
     n_sites = 0
     for g, bi, t in graph.all_calls(fx, lambda t: t.get("callee") in makers):
         gb = ctx.body(fx, g)
         n_sites += 1
-        sty = t["argtys"][2] if len(t["argtys"]) > 2 else ""
-        rs = roots(gb, t["args"][2]) if len(t["args"]) > 2 else set()
+        ai = makers[t["callee"]]
+        sty = t["argtys"][ai] if len(t["argtys"]) > ai else ""
+        rs = roots(gb, t["args"][ai]) if len(t["args"]) > ai else set()
         ok = bool(rs) and all(r.kind == "arg" for r in rs) and sty in ("S", "T")
         ctx.require(ok, "R13.6", "stream-handed-over-unwrapped:%s@%s" % (g["def"], cfg), "the stream given to the loop is not the caller's own stream parameter (type %s, roots %s)" % (sty[:60], sorted(map(str, rs))), fn=g["def"], site=t["l"])
     # counted: Environment::launch_on_stream + the two builder / spawner terminals; the latter are gated on a runtime feature
